@@ -250,6 +250,10 @@ func TestSim(t *testing.T) {
 		for i := worker; !stop && time.Since(start) < sweepBudget; i += workers {
 			base := prop.Gen(runSeed(seed, propID+"/sweep", i), i, tier)
 			for _, p := range prop.Sweep(t, base) {
+				if time.Since(start) > sweepBudget+sweepBudget/2 {
+					res.Probes["sweep-truncated"]++
+					break
+				}
 				out := prop.Exec(t, p)
 				if stop = handle(p, out); stop {
 					break
